@@ -19,6 +19,18 @@ Conventions
   leaves the pages marked locked (Linux: `VM_LOCKED` is set before the
   population fails); the repaired `dryoc_mlock` therefore calls `munlock` on
   its failure path (`Cfg.undo`, `false` only in the counter-model).
+
+WHAT CAN FAIL.  The only fallible system call of this model is `mlock` (`dryocMlock` returns a
+`Bool`: refused by the oracle, or failing in the kernel on `PROT_NONE` pages).  Every other wrapper
+is INFALLIBLE here: `dryocMunlock` and `dryocMprotect` return no status, so the tokens `unlock`,
+`ro`, `rw`, `na` (`opUnlock`, `opProtect`, `opNa`) always answer `ok` on a live region, and `alloc`
+takes the effect of its three `mprotect` calls for granted (the Rust swallows their results with
+`.ok()` after printing).  In the Rust, `munlock()` / `mprotect_*()` are
+`swap_some_or_err(|old| { dryoc_munlock(..)?; … })` / `dryoc_mprotect_*(..)?` and DO return `Err`
+when the system call fails, and `Drop`/`Zeroize` only print such an error.  A failing `munlock(2)`
+or `mprotect(2)` is therefore NOT REPRESENTABLE in this model; wherever the theorems of C14 / C15 /
+C19 say "every history", "failure paths" or "err", the failures meant are refused / failed `mlock`
+requests (and the length mismatch of `from_slice_*`), nothing else.
 -/
 namespace DryocVerif.Model.Protected
 
